@@ -676,7 +676,7 @@ func strictByKeyRemoval(p *Prog, e *Edge, callerPar *ssa.Parameter, j int) (bool
 	if h == nil || !p.InRepo(h) {
 		return false, ""
 	}
-	if !helperRemovesKeyWhenTrue(p, h) {
+	if !helperRemovesKeyWhenTrue(p, h) && !helperRemovesPresentKey(p, h, ex.Index) {
 		return false, ""
 	}
 	// site block dominated by the true branch of an If on extract #0 of the same call
@@ -760,6 +760,60 @@ func helperRemovesKeyWhenTrue(p *Prog, h *ssa.Function) bool {
 		}
 	}
 	return false
+}
+
+// helperRemovesPresentKey: the same fact read from the helper's path summaries (so that it does not depend on
+// how the helper is written): on every return whose first result is not false, result #mapIdx is a copy of the
+// map parameter from which a key that the map is known to hold has been deleted — a strictly smaller map.
+func helperRemovesPresentKey(p *Prog, h *ssa.Function, mapIdx int) bool {
+	if h.Blocks == nil || len(h.Params) == 0 {
+		return false
+	}
+	defer func() { _ = recover() }()
+	paths := p.Paths(h, PSOpts{})
+	if len(paths) == 0 {
+		return false
+	}
+	var mp *ssa.Parameter
+	for _, q := range h.Params {
+		if _, isMap := q.Type().Underlying().(*types.Map); isMap {
+			mp = q
+			break
+		}
+	}
+	if mp == nil {
+		return false
+	}
+	isM := func(t *T) bool { return t != nil && t.Op == "param" && t.V == ssa.Value(mp) }
+	claims := 0
+	for _, pa := range paths {
+		if pa.End != "return" || len(pa.Results) <= mapIdx {
+			return false
+		}
+		if pa.Results[0].IsConst("false") {
+			continue
+		}
+		res := pa.Results[mapIdx]
+		if !(res.Op == "clone" && len(res.Args) == 1 && isM(res.Args[0])) {
+			return false
+		}
+		removed := false
+		for _, e := range pa.Effects {
+			if e.Kind == "mapdel" && len(e.Args) == 2 && e.Args[0].String() == res.String() {
+				// the key is present in the original
+				for _, g := range pa.Guards {
+					if g.Kind == "has" && !g.Neg && isM(g.A) && g.B != nil && g.B.String() == e.Args[1].String() {
+						removed = true
+					}
+				}
+			}
+		}
+		if !removed {
+			return false
+		}
+		claims++
+	}
+	return claims > 0
 }
 
 // ---- V: visited guard -------------------------------------------------------------------------
